@@ -50,7 +50,8 @@ REQUIRED = {"all": ["runs", "completed_runs", "steps", "accepted_steps", "reject
                     "flat_checks", "flat_checks_flat", "flat_checks_not_flat", "files_checked", "seqlog_lines_checked",
                     "partial_range_runs", "hostile_tapes", "start_outside_range_runs", "flat_boundary_exact_hits",
                     "second_runs_on_same_machine", "g_beyond_709_steps", "runs_beyond_30_iterations",
-                    "runs_converged_before_the_first_step", "ranges_not_aligned_to_the_partition", "proposals_identical_to_the_current_sequence"]}
+                    "runs_converged_before_the_first_step", "ranges_not_aligned_to_the_partition", "proposals_identical_to_the_current_sequence",
+                    "runs_under_a_jumping_wall_clock", "other_machine_set_up_on_the_same_directory"]}
 NRUNS = {"quick": 160, "thorough": 1200}
 STEP_BUDGET = {"quick": 3000, "thorough": 30000}
 WATCHDOG = {"quick": 1200, "thorough": 6 * 3600}
@@ -58,6 +59,27 @@ WATCHDOG = {"quick": 1200, "thorough": 6 * 3600}
 
 class StopRun(BaseException):
     pass
+
+
+class HostileClock:
+    """Stands in for the `time` module inside the sampler: every reading of the wall clock lies hours to days after the
+    previous one (a suspended laptop, a clock correction), now and then before it.  The stated bookkeeping does not
+    mention time, so a run under this clock obeys the same rule as any other."""
+
+    def __init__(self, rng):
+        import time as _real
+        self._real = _real
+        self._rng = rng
+        self._now = _real.time()
+        self.readings = 0
+
+    def time(self):
+        self.readings += 1
+        self._now += self._rng.choice([0.0, 0.5, 3600.0, 13 * 3600.0, 40 * 3600.0, 30 * 86400.0, -7200.0])
+        return self._now
+
+    def __getattr__(self, name):
+        return getattr(self._real, name)
 
 
 _cfg = {"tier": "quick"}
@@ -545,6 +567,13 @@ def judge(case, rep, S):
     completed = False
     _cfg["monitor"] = mon
     wl._verif_sink = mon.sink
+    clock = None
+    saved_clock = None
+    if case["o"] % 3 == 0:
+        clock = HostileClock(gen.sub_rng(case["o"], ID, "clock"))
+        saved_clock = (wl.t, wl.time, S["seqmod"].time)
+        wl.t = wl.time = S["seqmod"].time = clock
+        rep.cnt("runs_under_a_jumping_wall_clock")
     try:
         with installed([S["seqmod"], wl], shim), contextlib.redirect_stdout(io.StringIO()):
             if case.get("raw"):
@@ -554,6 +583,12 @@ def judge(case, rep, S):
                 nb_, lo_, hi_ = b - a, a / Mb, b / Mb
             machine = wl.WangLandauMachine(case["s"], outdir, set(case["frozen"]), nb_, lo_, hi_,
                                            case["flatchk"], case["flatcrit"], CONV[case["conv"]])
+            if case["o"] % 5 == 1:
+                # another machine is set up on the same output directory (other binning) before this one runs: what this run
+                # writes and returns is still its own
+                other_bins = 3 if Mb != 3 else 7
+                wl.WangLandauMachine(case["s"][::-1], outdir, set(), other_bins, 0.0, 1.0, 13, 0.3, 1.5)
+                rep.cnt("other_machine_set_up_on_the_same_directory")
             result = machine.run()
             completed = True
             if case.get("twice") and not mon.dead and mon.finished_f and not mon.truncated:
@@ -578,6 +613,9 @@ def judge(case, rep, S):
     finally:
         wl._verif_sink = None
         _cfg["monitor"] = None
+        if saved_clock is not None:
+            wl.t, wl.time, S["seqmod"].time = saved_clock
+            rep.cnt("wall_clock_readings", clock.readings)
     rep.cnt("steps", mon.nsteps)
     rep.cnt("accepted_steps", mon.accepted)
     rep.cnt("rejected_in_range_steps", mon.rejected)
